@@ -119,7 +119,20 @@ Proof.
   - rewrite app_nil_r in Hq. exact Hq.
   - specialize (Hf ltac:(discriminate)). lia.
 Qed.
+(* C19, exact: at every moment the number of requests sent is min(added, answered + N): nothing waits while a slot
+   is free, nothing is sent beyond the limit *)
+Theorem throttle_exact : forall n ops, 1 <= n -> wf (init n) ops ->
+  let h := run n ops in
+  length (started h) = Nat.min (length (added h)) (ndone h + n).
+Proof.
+  intros n ops Hn Hwf h. destruct (run_inv n ops Hn Hwf) as [[Hc Hb Hf Hq Hc2] Hl]. fold h in Hc, Hb, Hf, Hq, Hc2, Hl.
+  rewrite <- Hq, app_length.
+  destruct (queue (t_ h)) as [|x q] eqn:Eq.
+  - cbn. lia.
+  - specialize (Hf ltac:(discriminate)). cbn. lia.
+Qed.
 Print Assumptions throttle_bound.
+Print Assumptions throttle_exact.
 Print Assumptions throttle_progress.
 
 Example ex : let h := run 2 [Add 1; Add 2; Add 3; Add 4; Done; Done; Done; Done] in
